@@ -123,6 +123,10 @@ NEXT_STORE:
 				if len(upd.GetPath()) == 0 {
 					continue
 				}
+				// the cache matches the joined path strings by prefix, skip what is not element wise below a requested path
+				if !pathMatchesAny(upd.GetPath(), paths) {
+					continue
+				}
 				scp, err := d.schemaClient.ToPath(ctx, upd.GetPath())
 				if err != nil {
 					return err
@@ -189,6 +193,10 @@ func (d *Datastore) handleGetDataUpdatesJSON(ctx context.Context, name string, r
 				}
 
 				if len(upd.GetPath()) == 0 {
+					continue
+				}
+				// the cache matches the joined path strings by prefix, skip what is not element wise below a requested path
+				if !pathMatchesAny(upd.GetPath(), paths) {
 					continue
 				}
 
@@ -268,6 +276,10 @@ NEXT_STORE:
 				}
 
 				if len(upd.GetPath()) == 0 {
+					continue
+				}
+				// the cache matches the joined path strings by prefix, skip what is not element wise below a requested path
+				if !pathMatchesAny(upd.GetPath(), paths) {
 					continue
 				}
 				scp, err := d.schemaClient.ToPath(ctx, upd.GetPath())
@@ -707,4 +719,22 @@ func (d *Datastore) subscribeResponseFromCacheUpdate(ctx context.Context, upd *c
 			Update: notification,
 		},
 	}, nil
+}
+
+// pathMatchesAny reports if the given cache path is equal to or, element by element, below one of the requested paths.
+// A "*" element in a requested path matches any value.
+func pathMatchesAny(p []string, reqPaths [][]string) bool {
+NEXT:
+	for _, rp := range reqPaths {
+		if len(rp) > len(p) {
+			continue
+		}
+		for i, e := range rp {
+			if e != "*" && e != p[i] {
+				continue NEXT
+			}
+		}
+		return true
+	}
+	return false
 }
